@@ -25,7 +25,9 @@ TRUSTED = [
 ]
 ASSUMPTIONS = [
     "every cache format records at least one attribute per eclass (true of md5-dict: md5; flat: eclassdir+mtime)",
-    "an edit that changes a file's content also changes its mtime (mtime-keyed caches cannot see anything else, by design)",
+    "files are also replaced by different content with an older, equal or newer timestamp; an mtime-keyed (flat) entry whose recorded "
+    "mtime equals the current one is valid by the property even if the content changed (the format cannot see it): such hits are "
+    "counted and exempt from the contents-vs-scratch comparison only",
     "an entry listing eclasses but lacking INHERIT counts as not recording its inherits (the code's upgrade rule)",
 ]
 RULE = ("a case = a master + overlay repository pair on disk (4 eclasses living in either/both, nested inherits, 3 ebuilds), 1-3 stacked caches "
@@ -65,6 +67,7 @@ class Tree:
             open(os.path.join(d, "profiles/categories"), "w").write("cat\n")
             open(os.path.join(d, "metadata/layout.conf"), "w").write(f"masters = {masters}\ncache-formats = md5-dict\n")
         self.clock = 1000
+        self.old_clock = 900     # timestamps older than anything written so far
         self.serial = 0
         # eclasses: later names may inherit earlier ones (no cycles)
         for i, e in enumerate(ECLASSES):
@@ -149,7 +152,10 @@ class Tree:
     def edit(self):
         rng = self.rng
         kind = rng.choice(["ebuild_edit", "ebuild_touch", "ebuild_inherit", "eclass_edit", "eclass_touch", "eclass_rm",
-                           "eclass_move", "eclass_shadow_diff", "eclass_shadow_same", "eclass_unshadow", "eclass_add"])
+                           "eclass_move", "eclass_shadow_diff", "eclass_shadow_same", "eclass_unshadow", "eclass_add",
+                           "ebuild_replace_older", "ebuild_replace_same_mtime", "ebuild_replace_newer",
+                           "ebuild_replace_older", "ebuild_replace_same_mtime",
+                           "eclass_replace_older", "eclass_replace_same_mtime"])
         p, e = rng.choice(PKGS), rng.choice(ECLASSES)
         inO, inM = os.path.exists(self.eclass_path(self.O, e)), os.path.exists(self.eclass_path(self.M, e))
         if kind == "ebuild_edit":
@@ -158,6 +164,22 @@ class Tree:
         elif kind == "ebuild_touch":
             t = self.tick()
             os.utime(self.ebuild_path(p), (t, t))
+        elif kind.startswith("ebuild_replace_"):
+            # the file is replaced by different content carrying an older / the same / a newer timestamp
+            # (cp -p, rsync -t, restoring a backup)
+            path = self.ebuild_path(p)
+            old = int(os.stat(path).st_mtime)
+            self.old_clock -= 7
+            mtime = {"older": self.old_clock, "same_mtime": old, "newer": self.tick()}[kind[len("ebuild_replace_"):]]
+            self.serial += 1
+            write(path, open(path).read() + 'RDEPEND+=" cat/replaced-x%d"\n' % self.serial, mtime)
+        elif kind.startswith("eclass_replace_") and (inO or inM):
+            path = self.eclass_lookup(e)
+            old = int(os.stat(path).st_mtime)
+            self.old_clock -= 7
+            mtime = {"older": self.old_clock, "same_mtime": old}[kind[len("eclass_replace_"):]]
+            self.serial += 1
+            write(path, open(path).read() + 'RDEPEND+=" cat/ecl-replaced-x%d"\n' % self.serial, mtime)
         elif kind == "ebuild_inherit":
             self.write_ebuild(p, [x for x in ECLASSES if rng.random() < 0.4])
         elif kind == "eclass_edit" and (inO or inM):
@@ -456,7 +478,13 @@ def judge(ctx):
             # a (tampered) entry that records no eclasses although the ebuild inherits some: valid by the property's wording
             # ("every inherited eclass it records"), but nothing ties its contents to the eclasses -- no staleness claim possible
             ctx.count("used_entry_without_eclass_records")
-        if data is not None and fresh is not None and not unrecorded:
+        blind = (isinstance(impl, list) and impl[1] >= 0 and stack[impl[1]]["fmt"] == "flat"
+                 and any(isinstance(e, str) and e.endswith("replace_same_mtime") for e in case["edits"]))
+        if blind:
+            # content replaced under an unchanged timestamp: an mtime-keyed entry still records the current mtime, so it is
+            # valid by the property's wording; what it holds may be outdated (the format cannot see it) -- no staleness claim
+            ctx.count("used_mtime_entry_after_same_mtime_replacement")
+        if data is not None and fresh is not None and not unrecorded and not blind:
             # as sets: the daemon's eclass-variable accumulation repeats tokens of eclasses inherited along several paths
             want_rdep = " ".join(sorted(set(fresh[2].split())))
             got_rdep = " ".join(sorted(set(data["RDEPEND"].split())))
@@ -554,12 +582,17 @@ def corpus(ctx, rng):
 
     def drop_line(t, spec, p, prefix):
         path = entry_path(spec, p)
-        open(path, "w").write("\n".join(l for l in open(path).read().split("\n") if not l.startswith(prefix)))
+        old_lines = open(path).read().split("\n")
+        open(path, "w").write("\n".join(l for l in old_lines if not l.startswith(prefix)))
 
     edits = {
         "none": lambda t, s: None,
         "ebuild_edit": lambda t, s: write(t.ebuild_path("p"), open(t.ebuild_path("p")).read() + 'RDEPEND+=" cat/x"\n', t.tick()),
         "ebuild_touch": lambda t, s: touch(t.ebuild_path("p"), t),
+        "ebuild_replace_older": lambda t, s: write(t.ebuild_path("p"), open(t.ebuild_path("p")).read() + 'RDEPEND+=" cat/older"\n', 400),
+        "ebuild_replace_same_mtime": lambda t, s: write(t.ebuild_path("p"), open(t.ebuild_path("p")).read() + 'RDEPEND+=" cat/same"\n',
+                                                        int(os.stat(t.ebuild_path("p")).st_mtime)),
+        "eclass_replace_older": lambda t, s: write(t.eclass_path(t.M, "e1"), 'RDEPEND+=" cat/e1-older"\n', 300),
         "eclass_edit": lambda t, s: write(t.eclass_path(t.M, "e1"), 'RDEPEND+=" cat/e1-new"\n', t.tick()),
         "nested_eclass_touch": lambda t, s: touch(t.eclass_path(t.M, "e1"), t),
         "eclass_rm": lambda t, s: os.unlink(t.eclass_path(t.M, "e3")),
@@ -578,8 +611,9 @@ def corpus(ctx, rng):
                 populate(t, spec, PKGS, ebp)
                 for j, p in enumerate(PKGS):
                     path = entry_path(spec, p)
+                    old_lines = open(path).read().split("\n")
                     open(path, "w").write("\n".join(("DESCRIPTION=CACHED%d" % (100 + j) if l.startswith("DESCRIPTION=") else l)
-                                                    for l in open(path).read().split("\n")))
+                                                    for l in old_lines))
                 fn(t, spec)
                 read_all(ctx, t, [spec], ebp, f"corpus:{fmt}:{name}", [name])
             finally:
@@ -600,8 +634,9 @@ def corpus(ctx, rng):
                 for j, p in enumerate(PKGS):
                     path = entry_path(s, p)
                     if os.path.exists(path):
+                        old_lines = open(path).read().split("\n")
                         open(path, "w").write("\n".join(("DESCRIPTION=CACHED%d" % (100 * (i + 1) + j) if l.startswith("DESCRIPTION=") else l)
-                                                        for l in open(path).read().split("\n")))
+                                                        for l in old_lines))
             read_all(ctx, t, [s0, s1, s2], ebp, f"corpus:stack:{variant}", [variant])
         finally:
             t.close()
